@@ -28,9 +28,9 @@ func init() {
 		Old: `"expire", "persist", "jset", "jdel", "pdel", "rename", "renamenx":`, New: `"expire", "persist", "jset", "pdel", "rename", "renamenx":`,
 		Expect: "R7.lock-write", Key: "cmdJdel", Why: "reverse of the JDEL fix"})
 	mutant(&Mutant{Name: "lt-get-nolock", Props: []string{"C07"}, File: fServer,
-		Old:    "case \"get\", \"keys\", \"scan\", \"nearby\", \"within\", \"intersects\", \"hooks\",\n\t\t\"chans\"",
-		New:    "case \"keys\", \"scan\", \"nearby\", \"within\", \"intersects\", \"hooks\",\n\t\t\"chans\"",
-		Edits:  []Edit{{fServer, `	case "output":
+		Old: "case \"get\", \"keys\", \"scan\", \"nearby\", \"within\", \"intersects\", \"hooks\",\n\t\t\"chans\"",
+		New: "case \"keys\", \"scan\", \"nearby\", \"within\", \"intersects\", \"hooks\",\n\t\t\"chans\"",
+		Edits: []Edit{{fServer, `	case "output":
 		// this is local connection operation. Locks not needed.`, `	case "output", "get":
 		// this is local connection operation. Locks not needed.`}},
 		Expect: "R7.lock-read", Key: "cmdGET", Why: "GET dispatched without any lock"})
@@ -50,18 +50,18 @@ func init() {
 		Old: "\t\t\t\ts.mu.Lock()\n\t\t\t\tdefer s.mu.Unlock()\n\t\t\t\tmsgs = FenceMatch", New: "\t\t\t\ts.mu.RLock()\n\t\t\t\tdefer s.mu.RUnlock()\n\t\t\t\tmsgs = FenceMatch",
 		Expect: "R7.lock-write", Key: "groupConnect", Why: "reverse of the live-fence fix"})
 	mutant(&Mutant{Name: "read-handler-mutates", Props: []string{"C07", "C03"}, File: fCrud,
-		Old: "func (s *Server) cmdTYPE(msg *Message) (resp.Value, error) {\n\tstart := time.Now()\n",
-		New: "func (s *Server) cmdTYPE(msg *Message) (resp.Value, error) {\n\tstart := time.Now()\n\tif len(msg.Args) > 7 {\n\t\ts.cols.Delete(msg.Args[1])\n\t}\n",
+		Old:    "func (s *Server) cmdTYPE(msg *Message) (resp.Value, error) {\n\tstart := time.Now()\n",
+		New:    "func (s *Server) cmdTYPE(msg *Message) (resp.Value, error) {\n\tstart := time.Now()\n\tif len(msg.Args) > 7 {\n\t\ts.cols.Delete(msg.Args[1])\n\t}\n",
 		Expect: "R3.write-class", Key: "type", Why: "a read command acquires a hidden mutation"})
 
 	// ---- R3.apply-log / updated / vocabulary -------------------------------
 	mutant(&Mutant{Name: "expire-drop-writeaof", Props: []string{"C03", "C14"}, File: fExpire,
-		Old: "\t\t_, d, err := s.cmdDEL(msg)\n\t\tif err != nil {\n\t\t\tlog.Fatal(err)\n\t\t}\n\t\tif err := s.writeAOF(msg.Args, &d); err != nil {\n\t\t\tlog.Fatal(err)\n\t\t}",
-		New: "\t\t_, d, err := s.cmdDEL(msg)\n\t\tif err != nil {\n\t\t\tlog.Fatal(err)\n\t\t}\n\t\t_ = d",
+		Old:    "\t\t_, d, err := s.cmdDEL(msg)\n\t\tif err != nil {\n\t\t\tlog.Fatal(err)\n\t\t}\n\t\tif err := s.writeAOF(msg.Args, &d); err != nil {\n\t\t\tlog.Fatal(err)\n\t\t}",
+		New:    "\t\t_, d, err := s.cmdDEL(msg)\n\t\tif err != nil {\n\t\t\tlog.Fatal(err)\n\t\t}\n\t\t_ = d",
 		Expect: "R3.apply-log", Key: "backgroundExpireObjects", Why: "expiry applied but not logged"})
 	mutant(&Mutant{Name: "nonatomic-write-false", Props: []string{"C03", "C18"}, File: fScripts,
-		Old: "\tif err != nil {\n\t\treturn resp.NullValue(), err\n\t}\n\n\tif write {\n\t\tif err := s.writeAOF(msg.Args, &d); err != nil {\n\t\t\treturn resp.NullValue(), err\n\t\t}\n\t}\n\n\treturn res, nil\n}\n\n// Opens",
-		New: "\tif err != nil {\n\t\treturn resp.NullValue(), err\n\t}\n\n\tif write && msg.OutputType == JSON {\n\t\tif err := s.writeAOF(msg.Args, &d); err != nil {\n\t\t\treturn resp.NullValue(), err\n\t\t}\n\t}\n\n\treturn res, nil\n}\n\n// Opens",
+		Old:    "\tif err != nil {\n\t\treturn resp.NullValue(), err\n\t}\n\n\tif write {\n\t\tif err := s.writeAOF(msg.Args, &d); err != nil {\n\t\t\treturn resp.NullValue(), err\n\t\t}\n\t}\n\n\treturn res, nil\n}\n\n// Opens",
+		New:    "\tif err != nil {\n\t\treturn resp.NullValue(), err\n\t}\n\n\tif write && msg.OutputType == JSON {\n\t\tif err := s.writeAOF(msg.Args, &d); err != nil {\n\t\t\treturn resp.NullValue(), err\n\t\t}\n\t}\n\n\treturn res, nil\n}\n\n// Opens",
 		Expect: "R3.apply-log", Key: "luaTile38NonAtomic", Why: "script writes logged only under an unrelated condition"})
 	mutant(&Mutant{Name: "expire-drop-updated", Props: []string{"C03"}, File: fCrud,
 		Old: "\t\td.command = \"expire\"\n\t\td.updated = true\n", New: "\t\td.command = \"expire\"\n",
@@ -72,23 +72,23 @@ func init() {
 
 	// ---- R15 ---------------------------------------------------------------
 	mutant(&Mutant{Name: "eval-drop-readonly", Props: []string{"C15", "C18"}, File: fServer,
-		Old: "\tcase \"eval\", \"evalsha\":\n\t\t// write operations (potentially) but no AOF for the script command itself\n\t\ts.mu.Lock()\n\t\tdefer s.mu.Unlock()\n\t\tif s.config.followHost() != \"\" {\n\t\t\treturn writeErr(\"not the leader\")\n\t\t}\n\t\tif s.config.readOnly() {\n\t\t\treturn writeErr(\"read only\")\n\t\t}",
-		New: "\tcase \"eval\", \"evalsha\":\n\t\t// write operations (potentially) but no AOF for the script command itself\n\t\ts.mu.Lock()\n\t\tdefer s.mu.Unlock()\n\t\tif s.config.followHost() != \"\" {\n\t\t\treturn writeErr(\"not the leader\")\n\t\t}",
+		Old:    "\tcase \"eval\", \"evalsha\":\n\t\t// write operations (potentially) but no AOF for the script command itself\n\t\ts.mu.Lock()\n\t\tdefer s.mu.Unlock()\n\t\tif s.config.followHost() != \"\" {\n\t\t\treturn writeErr(\"not the leader\")\n\t\t}\n\t\tif s.config.readOnly() {\n\t\t\treturn writeErr(\"read only\")\n\t\t}",
+		New:    "\tcase \"eval\", \"evalsha\":\n\t\t// write operations (potentially) but no AOF for the script command itself\n\t\ts.mu.Lock()\n\t\tdefer s.mu.Unlock()\n\t\tif s.config.followHost() != \"\" {\n\t\t\treturn writeErr(\"not the leader\")\n\t\t}",
 		Expect: "R15.write-gates", Key: "eval,evalsha/read-only", Why: "EVAL on a read-only server"})
 	mutant(&Mutant{Name: "ro-write-list-drop-rename", Props: []string{"C15", "C18"}, File: fScripts,
-		Old: "\tcase \"set\", \"del\", \"drop\", \"fset\", \"flushdb\", \"expire\", \"persist\", \"jset\", \"pdel\",\n\t\t\"rename\", \"renamenx\":\n\t\t// write operations\n\t\treturn resp.NullValue(), errReadOnly\n\n\tcase \"get\",",
-		New: "\tcase \"set\", \"del\", \"drop\", \"fset\", \"flushdb\", \"expire\", \"persist\", \"jset\", \"pdel\",\n\t\t\"renamenx\":\n\t\t// write operations\n\t\treturn resp.NullValue(), errReadOnly\n\n\tcase \"rename\", \"get\",",
+		Old:    "\tcase \"set\", \"del\", \"drop\", \"fset\", \"flushdb\", \"expire\", \"persist\", \"jset\", \"pdel\",\n\t\t\"rename\", \"renamenx\":\n\t\t// write operations\n\t\treturn resp.NullValue(), errReadOnly\n\n\tcase \"get\",",
+		New:    "\tcase \"set\", \"del\", \"drop\", \"fset\", \"flushdb\", \"expire\", \"persist\", \"jset\", \"pdel\",\n\t\t\"renamenx\":\n\t\t// write operations\n\t\treturn resp.NullValue(), errReadOnly\n\n\tcase \"rename\", \"get\",",
 		Expect: "R15.write-gates", Key: "luaTile38AtomicRO", Why: "EVALRO can RENAME"})
 	mutant(&Mutant{Name: "auth-exempt-server", Props: []string{"C15"}, File: fServer,
 		Old: `if (!client.authd || cmd == "auth") && cmd != "output" && cmd != "healthz" {`, New: `if (!client.authd || cmd == "auth") && cmd != "output" && cmd != "healthz" && cmd != "server" {`,
 		Expect: "R15.auth-dominates", Key: "auth-exemptions", Why: "SERVER readable without password"})
 	mutant(&Mutant{Name: "authd-before-compare", Props: []string{"C15"}, File: fServer,
-		Old: "\t\t\tif s.config.requirePass() != strings.TrimSpace(password) {\n\t\t\t\treturn writeErr(\"invalid password\")\n\t\t\t}\n\t\t\tclient.authd = true\n",
-		New: "\t\t\tclient.authd = true\n\t\t\tif s.config.requirePass() != strings.TrimSpace(password) {\n\t\t\t\treturn writeErr(\"invalid password\")\n\t\t\t}\n",
+		Old:    "\t\t\tif s.config.requirePass() != strings.TrimSpace(password) {\n\t\t\t\treturn writeErr(\"invalid password\")\n\t\t\t}\n\t\t\tclient.authd = true\n",
+		New:    "\t\t\tclient.authd = true\n\t\t\tif s.config.requirePass() != strings.TrimSpace(password) {\n\t\t\t\treturn writeErr(\"invalid password\")\n\t\t\t}\n",
 		Expect: "R15.authd-store", Key: "authd=true", Why: "a wrong password authenticates the connection for the next command"})
 	mutant(&Mutant{Name: "protected-after-read", Props: []string{"C15"}, File: fServer,
-		Old: "\t\t\t\tif s.isProtected() {\n\t\t\t\t\t// This is a protected server. Only loopback is allowed.\n\t\t\t\t\tconn.Write(deniedMessage)\n\t\t\t\t\treturn // close connection\n\t\t\t\t}",
-		New: "\t\t\t\tif s.isProtected() {\n\t\t\t\t\t// This is a protected server. Only loopback is allowed.\n\t\t\t\t\tconn.Write(deniedMessage)\n\t\t\t\t}",
+		Old:    "\t\t\t\tif s.isProtected() {\n\t\t\t\t\t// This is a protected server. Only loopback is allowed.\n\t\t\t\t\tconn.Write(deniedMessage)\n\t\t\t\t\treturn // close connection\n\t\t\t\t}",
+		New:    "\t\t\t\tif s.isProtected() {\n\t\t\t\t\t// This is a protected server. Only loopback is allowed.\n\t\t\t\t\tconn.Write(deniedMessage)\n\t\t\t\t}",
 		Expect: "R15.protected-first", Key: "protected-before-read", Why: "protected mode writes the denial but keeps serving"})
 	mutant(&Mutant{Name: "read-gate-drop-get", Props: []string{"C15"}, File: fServer,
 		Old:    "case \"get\", \"keys\", \"scan\", \"nearby\", \"within\", \"intersects\", \"hooks\",\n\t\t\"chans\"",
@@ -97,8 +97,8 @@ func init() {
 
 	// ---- R8 ----------------------------------------------------------------
 	mutant(&Mutant{Name: "dirty-clear-outside", Props: []string{"C08"}, File: fServer,
-		Old: "\t\t\t\t\t\t\ts.flushAOF(false)\n\t\t\t\t\t\t\ts.aofdirty.Store(false)\n\t\t\t\t\t\t}()\n\t\t\t\t\t}\n\t\t\t\t\tconn.Write(client.out)",
-		New: "\t\t\t\t\t\t\ts.flushAOF(false)\n\t\t\t\t\t\t}()\n\t\t\t\t\t\ts.aofdirty.Store(false)\n\t\t\t\t\t}\n\t\t\t\t\tconn.Write(client.out)",
+		Old:    "\t\t\t\t\t\t\ts.flushAOF(false)\n\t\t\t\t\t\t\ts.aofdirty.Store(false)\n\t\t\t\t\t\t}()\n\t\t\t\t\t}\n\t\t\t\t\tconn.Write(client.out)",
+		New:    "\t\t\t\t\t\t\ts.flushAOF(false)\n\t\t\t\t\t\t}()\n\t\t\t\t\t\ts.aofdirty.Store(false)\n\t\t\t\t\t}\n\t\t\t\t\tconn.Write(client.out)",
 		Expect: "R8.flag-under-lock", Key: "aofdirty.Store(false)", Why: "reverse of the dirty-flag fix"})
 	mutant(&Mutant{Name: "detach-no-prewrite", Props: []string{"C08"}, File: fServer,
 		Old: "\t\t\t\t\t\t\t\t\tif s.aofdirty.Load() {\n\t\t\t\t\t\t\t\t\t\tfunc() {", New: "\t\t\t\t\t\t\t\t\tif s.aofdirty.Load() && false {\n\t\t\t\t\t\t\t\t\t\tfunc() {",
@@ -131,7 +131,7 @@ func init() {
 		Expect: "R18.sandbox-env", Key: "os.getenv", Why: "a new name in the os table"})
 	mutant(&Mutant{Name: "sandbox-sha1-reads-file", Props: []string{"C18"}, File: fScripts,
 		Old: "\t\tshaSum := Sha1Sum(ls.ToString(1))\n", New: "\t\tshaSum := Sha1Sum(ls.ToString(1))\n\t\tif b, err := os.ReadFile(ls.ToString(2)); err == nil {\n\t\t\tshaSum = Sha1Sum(string(b))\n\t\t}\n",
-		Edits: []Edit{{fScripts, "import (\n\t\"bytes\"", "import (\n\t\"os\"\n\t\"bytes\""}},
+		Edits:  []Edit{{fScripts, "import (\n\t\"bytes\"", "import (\n\t\"os\"\n\t\"bytes\""}},
 		Expect: "R18.sandbox-env", Key: "reach/tile38.sha1hex", Why: "a script function reads files"})
 	mutant(&Mutant{Name: "globals-unlocked", Props: []string{"C18"}, File: fScripts,
 		Old: "\tL.SetMetatable(L.Get(lua.GlobalsIndex), mt)\n", New: "\t_ = mt\n",
@@ -141,7 +141,7 @@ func init() {
 		Expect: "R18.ro-effect-free", Key: "jdel", Why: "EVALRO can run a mutating command"})
 	mutant(&Mutant{Name: "evalro-nolock", Props: []string{"C18", "C07"}, File: fServer,
 		Old: "\"chans\", \"search\", \"ttl\", \"bounds\", \"server\", \"info\", \"type\", \"jget\",\n\t\t\"evalro\", \"evalrosha\", \"role\",", New: "\"chans\", \"search\", \"ttl\", \"bounds\", \"server\", \"info\", \"type\", \"jget\",\n\t\t\"role\",",
-		Edits: []Edit{{fServer, "\tcase \"evalna\", \"evalnasha\":\n\t\t// No locking for scripts", "\tcase \"evalna\", \"evalnasha\", \"evalro\", \"evalrosha\":\n\t\t// No locking for scripts"}},
+		Edits:  []Edit{{fServer, "\tcase \"evalna\", \"evalnasha\":\n\t\t// No locking for scripts", "\tcase \"evalna\", \"evalnasha\", \"evalro\", \"evalrosha\":\n\t\t// No locking for scripts"}},
 		Expect: "R18.script-locks", Key: "lock-table/evalro", Why: "EVALRO runs without the shared lock"})
 	mutant(&Mutant{Name: "whereeval-close-no-clear", Props: []string{"C18"}, File: "internal/server/token.go",
 		Old: "func (whereeval whereevalT) Close() {\n\tluaSetRawGlobals(\n\t\twhereeval.luaState, map[string]lua.LValue{\n\t\t\t\"ARGV\": lua.LNil,\n\t\t})\n", New: "func (whereeval whereevalT) Close() {\n",
@@ -152,19 +152,19 @@ func init() {
 
 	// ---- R9 ----------------------------------------------------------------
 	mutant(&Mutant{Name: "shrink-rename-away", Props: []string{"C09"}, File: fShrink,
-		Old: "\t\t\tif err := os.Rename(s.opts.AppendFileName+\"-shrink\", s.opts.AppendFileName); err != nil {",
-		New: "\t\t\tif err := os.Rename(s.opts.AppendFileName, s.opts.AppendFileName+\"-bak\"); err != nil {\n\t\t\t\tlog.Fatalf(\"shrink backup fatal operation: %v\", err)\n\t\t\t}\n\t\t\tif err := os.Rename(s.opts.AppendFileName+\"-shrink\", s.opts.AppendFileName); err != nil {",
+		Old:    "\t\t\tif err := os.Rename(s.opts.AppendFileName+\"-shrink\", s.opts.AppendFileName); err != nil {",
+		New:    "\t\t\tif err := os.Rename(s.opts.AppendFileName, s.opts.AppendFileName+\"-bak\"); err != nil {\n\t\t\t\tlog.Fatalf(\"shrink backup fatal operation: %v\", err)\n\t\t\t}\n\t\t\tif err := os.Rename(s.opts.AppendFileName+\"-shrink\", s.opts.AppendFileName); err != nil {",
 		Expect: "R9.live-never-absent", Key: "os.Rename(s.opts.AppendFileName,", Why: "reverse of the single-rename fix"})
 	mutant(&Mutant{Name: "shrinklog-extra-guard", Props: []string{"C09"}, File: fAOF,
 		Old: "\tif s.shrinking {\n\t\tnargs := make", New: "\tif s.shrinking && d != nil {\n\t\tnargs := make",
 		Expect: "R9.shrinklog-capture", Key: "shrinklog-guarded-only-by-flag", Why: "commands logged without details (expiry of hooks via nil d) are not captured"})
 	mutant(&Mutant{Name: "shrinklog-after-live", Props: []string{"C09"}, File: fAOF,
-		Old: "\tif s.shrinking {\n\t\tnargs := make([]string, len(args))\n\t\tcopy(nargs, args)\n\t\ts.shrinklog = append(s.shrinklog, nargs)\n\t}\n\n\tif s.aof != nil {\n\t\ts.aofdirty.Store(true) // prewrite optimization flag",
-		New: "\tif s.aof != nil {\n\t\tif len(args) > 3 && s.shrinking {\n\t\t\tnargs := make([]string, len(args))\n\t\t\tcopy(nargs, args)\n\t\t\ts.shrinklog = append(s.shrinklog, nargs)\n\t\t}\n\t\ts.aofdirty.Store(true) // prewrite optimization flag",
+		Old:    "\tif s.shrinking {\n\t\tnargs := make([]string, len(args))\n\t\tcopy(nargs, args)\n\t\ts.shrinklog = append(s.shrinklog, nargs)\n\t}\n\n\tif s.aof != nil {\n\t\ts.aofdirty.Store(true) // prewrite optimization flag",
+		New:    "\tif s.aof != nil {\n\t\tif len(args) > 3 && s.shrinking {\n\t\t\tnargs := make([]string, len(args))\n\t\t\tcopy(nargs, args)\n\t\t\ts.shrinklog = append(s.shrinklog, nargs)\n\t\t}\n\t\ts.aofdirty.Store(true) // prewrite optimization flag",
 		Expect: "R9.shrinklog-capture", Key: "", Why: "short commands reach the live log only"})
 	mutant(&Mutant{Name: "shrink-sync-after-rename", Props: []string{"C09"}, File: fShrink,
-		Old: "\t\t\tif _, err := f.Write(aofbuf); err != nil {\n\t\t\t\treturn err\n\t\t\t}\n\t\t\tif err := f.Sync(); err != nil {\n\t\t\t\treturn err\n\t\t\t}\n\t\t\t// we now have",
-		New: "\t\t\tif _, err := f.Write(aofbuf); err != nil {\n\t\t\t\treturn err\n\t\t\t}\n\t\t\t// we now have",
+		Old:    "\t\t\tif _, err := f.Write(aofbuf); err != nil {\n\t\t\t\treturn err\n\t\t\t}\n\t\t\tif err := f.Sync(); err != nil {\n\t\t\t\treturn err\n\t\t\t}\n\t\t\t// we now have",
+		New:    "\t\t\tif _, err := f.Write(aofbuf); err != nil {\n\t\t\t\treturn err\n\t\t\t}\n\t\t\t// we now have",
 		Expect: "R9.swap-order", Key: "sync-new-file", Why: "the shrink log is not synced before the swap"})
 	mutant(&Mutant{Name: "shrink-drop-aofsz", Props: []string{"C09"}, File: fShrink,
 		Old: "\t\t\ts.aofsz = int(n)\n", New: "\t\t\t_ = n\n",
@@ -196,8 +196,8 @@ func init() {
 		Old: "\t\tif sw.output == outputCount && len(sw.wheres) == 0 &&\n\t\t\tlen(sw.whereins) == 0 && len(sw.whereevals) == 0 &&", New: "\t\tif sw.output == outputCount && len(sw.wheres) == 0 &&\n\t\t\tlen(sw.whereevals) == 0 &&",
 		Expect: "R12.count-shortcut", Key: "cmdScan→guard-covers-filters", Why: "SCAN COUNT with WHEREIN returns the unfiltered count"})
 	mutant(&Mutant{Name: "keys-range-no-match", Props: []string{"C12"}, File: "internal/server/keys.go",
-		Old: "\t\t\t\tif key > g.Limits[1] {\n\t\t\t\t\treturn false\n\t\t\t\t}\n\t\t\t\tmatch, _ := glob.Match(pattern, key)\n\t\t\t\tif match {\n\t\t\t\t\tkeys = append(keys, key)\n\t\t\t\t}",
-		New: "\t\t\t\tif key > g.Limits[1] {\n\t\t\t\t\treturn false\n\t\t\t\t}\n\t\t\t\tkeys = append(keys, key)",
+		Old:    "\t\t\t\tif key > g.Limits[1] {\n\t\t\t\t\treturn false\n\t\t\t\t}\n\t\t\t\tmatch, _ := glob.Match(pattern, key)\n\t\t\t\tif match {\n\t\t\t\t\tkeys = append(keys, key)\n\t\t\t\t}",
+		New:    "\t\t\t\tif key > g.Limits[1] {\n\t\t\t\t\treturn false\n\t\t\t\t}\n\t\t\t\tkeys = append(keys, key)",
 		Expect: "R12.range-then-match", Key: "cmdKEYS→s.cols.Ascend", Why: "KEYS ab*c returns everything with prefix ab"})
 	mutant(&Mutant{Name: "where-extra-operator", Props: []string{"C12"}, File: "internal/server/token.go",
 		Old: "\t\t\t\t\tcase \"<\", \"<=\", \">\", \">=\", \"==\", \"!=\":\n\t\t\t\t\tdefault:", New: "\t\t\t\t\tcase \"<\", \"<=\", \">\", \">=\", \"==\", \"!=\", \"<>\":\n\t\t\t\t\tdefault:",
@@ -205,8 +205,8 @@ func init() {
 
 	// ---- R19 / R2 / R20 ----------------------------------------------------
 	mutant(&Mutant{Name: "delete-forgets-points", Props: []string{"C19"}, File: fColl,
-		Old: "\tif prev.Expires() != 0 {\n\t\tc.expires.Delete(prev)\n\t}\n\tc.points -= prev.Geo().NumPoints()\n\tc.weight -= prev.Weight()\n\treturn prev",
-		New: "\tif prev.Expires() != 0 {\n\t\tc.expires.Delete(prev)\n\t}\n\tc.weight -= prev.Weight()\n\treturn prev",
+		Old:    "\tif prev.Expires() != 0 {\n\t\tc.expires.Delete(prev)\n\t}\n\tc.points -= prev.Geo().NumPoints()\n\tc.weight -= prev.Weight()\n\treturn prev",
+		New:    "\tif prev.Expires() != 0 {\n\t\tc.expires.Delete(prev)\n\t}\n\tc.weight -= prev.Weight()\n\treturn prev",
 		Expect: "R19.delta", Key: "points", Why: "num_points drifts after DEL"})
 	mutant(&Mutant{Name: "setfill-wrong-operand", Props: []string{"C19"}, File: fColl,
 		Old: "\t\tc.points -= prev.Geo().NumPoints()\n\t\tc.weight -= prev.Weight()\n\t}", New: "\t\tc.points -= prev.Geo().NumPoints()\n\t\tc.weight -= obj.Weight()\n\t}",
@@ -239,8 +239,8 @@ func init() {
 		Old: "\t\t\tif meters > fence.roam.meters {\n\t\t\t\treturn true // skip outside radius\n\t\t\t}\n", New: "\t\t\t_ = meters\n",
 		Expect: "R20.radius-operands", Key: "radius-guard", Why: "everything in the bounding rectangle is nearby"})
 	mutant(&Mutant{Name: "roam-pattern-always-glob", Props: []string{"C20"}, File: "internal/server/fence.go",
-		Old: "\t\t\tif fence.roam.pattern {\n\t\t\t\tidMatch, _ = glob.Match(fence.roam.id, o.ID())\n\t\t\t} else {\n\t\t\t\tidMatch = fence.roam.id == o.ID()\n\t\t\t}\n\t\t\tif !idMatch {\n\t\t\t\treturn true // skip non-id match\n\t\t\t}",
-		New: "\t\t\tif fence.roam.pattern {\n\t\t\t\tidMatch, _ = glob.Match(fence.roam.id, o.ID())\n\t\t\t} else {\n\t\t\t\tidMatch = fence.roam.id == o.ID()\n\t\t\t}\n\t\t\tif !idMatch && len(nearbys) > 1000 {\n\t\t\t\treturn true // skip non-id match\n\t\t\t}",
+		Old:    "\t\t\tif fence.roam.pattern {\n\t\t\t\tidMatch, _ = glob.Match(fence.roam.id, o.ID())\n\t\t\t} else {\n\t\t\t\tidMatch = fence.roam.id == o.ID()\n\t\t\t}\n\t\t\tif !idMatch {\n\t\t\t\treturn true // skip non-id match\n\t\t\t}",
+		New:    "\t\t\tif fence.roam.pattern {\n\t\t\t\tidMatch, _ = glob.Match(fence.roam.id, o.ID())\n\t\t\t} else {\n\t\t\t\tidMatch = fence.roam.id == o.ID()\n\t\t\t}\n\t\t\tif !idMatch && len(nearbys) > 1000 {\n\t\t\t\treturn true // skip non-id match\n\t\t\t}",
 		Expect: "R20.pattern-filter", Key: "filter-dominates-append", Why: "the id filter is computed but not applied"})
 	mutant(&Mutant{Name: "roam-faraway-stale-distance", Props: []string{"C20"}, File: "internal/server/fence.go",
 		Old: "\t\tfaraways[i].meters = faraways[i].obj.Distance(obj.Geo())\n", New: "\t\tfaraways[i].meters = faraways[i].obj.Distance(old.Geo())\n",
@@ -251,15 +251,15 @@ func init() {
 
 	// ---- R11 / R14 ---------------------------------------------------------
 	mutant(&Mutant{Name: "scanrange-skip-off-by-one", Props: []string{"C11"}, File: fColl,
-		Old: "\titer := func(_ string, o *object.Object) bool {\n\t\tcount++\n\t\tif count <= offset {\n\t\t\treturn true\n\t\t}\n\t\tnextStep(count, cursor, deadline)\n\t\tif !desc {",
-		New: "\titer := func(_ string, o *object.Object) bool {\n\t\tcount++\n\t\tif count < offset {\n\t\t\treturn true\n\t\t}\n\t\tnextStep(count, cursor, deadline)\n\t\tif !desc {",
+		Old:    "\titer := func(_ string, o *object.Object) bool {\n\t\tcount++\n\t\tif count <= offset {\n\t\t\treturn true\n\t\t}\n\t\tnextStep(count, cursor, deadline)\n\t\tif !desc {",
+		New:    "\titer := func(_ string, o *object.Object) bool {\n\t\tcount++\n\t\tif count < offset {\n\t\t\treturn true\n\t\t}\n\t\tnextStep(count, cursor, deadline)\n\t\tif !desc {",
 		Expect: "R11.cursor-protocol", Key: "ScanRange", Why: "the first element of every later page repeats the last of the previous one"})
 	mutant(&Mutant{Name: "nearby-step-after-iter", Props: []string{"C11"}, File: fColl,
 		Old: "\t\t\tnextStep(count, cursor, deadline)\n\t\t\talive = iter(o, dist)\n\t\t\treturn alive", New: "\t\t\talive = iter(o, dist)\n\t\t\tnextStep(count, cursor, deadline)\n\t\t\treturn alive",
 		Expect: "R11.cursor-protocol", Key: "Nearby", Why: "the element that hits the limit is not counted in the cursor"})
 	mutant(&Mutant{Name: "searchvalues-no-prestep", Props: []string{"C11"}, File: fColl,
-		Old: "func (c *Collection) SearchValues(\n\tdesc bool,\n\tcursor Cursor,\n\tdeadline *deadline.Deadline,\n\titerator func(o *object.Object) bool,\n) bool {\n\tvar keepon = true\n\tvar count uint64\n\tvar offset uint64\n\tif cursor != nil {\n\t\toffset = cursor.Offset()\n\t\tcursor.Step(offset)\n\t}",
-		New: "func (c *Collection) SearchValues(\n\tdesc bool,\n\tcursor Cursor,\n\tdeadline *deadline.Deadline,\n\titerator func(o *object.Object) bool,\n) bool {\n\tvar keepon = true\n\tvar count uint64\n\tvar offset uint64\n\tif cursor != nil {\n\t\toffset = cursor.Offset()\n\t}",
+		Old:    "func (c *Collection) SearchValues(\n\tdesc bool,\n\tcursor Cursor,\n\tdeadline *deadline.Deadline,\n\titerator func(o *object.Object) bool,\n) bool {\n\tvar keepon = true\n\tvar count uint64\n\tvar offset uint64\n\tif cursor != nil {\n\t\toffset = cursor.Offset()\n\t\tcursor.Step(offset)\n\t}",
+		New:    "func (c *Collection) SearchValues(\n\tdesc bool,\n\tcursor Cursor,\n\tdeadline *deadline.Deadline,\n\titerator func(o *object.Object) bool,\n) bool {\n\tvar keepon = true\n\tvar count uint64\n\tvar offset uint64\n\tif cursor != nil {\n\t\toffset = cursor.Offset()\n\t}",
 		Expect: "R11.cursor-protocol", Key: "SearchValues/offset-and-step", Why: "the cursor of the second page restarts from the page size"})
 	mutant(&Mutant{Name: "hitlimit-early", Props: []string{"C11"}, File: "internal/server/scanner.go",
 		Old: "\tif sw.numberItems == sw.limit {\n\t\tsw.hitLimit = true\n\t\treturn false, nil\n\t}", New: "\tif sw.numberItems == sw.limit {\n\t\tsw.hitLimit = true\n\t}",
@@ -288,9 +288,9 @@ func init() {
 		Old: "\t\t\t\tif _, err := s.aof.Seek(int64(s.aofsz), 0); err != nil {\n\t\t\t\t\treturn err\n\t\t\t\t}\n", New: "",
 		Expect: "R4.size-accounting", Key: "tail-repair", Why: "after the truncate the next append lands beyond the cut"})
 	mutant(&Mutant{Name: "loadaof-truncate-before-adjust", Props: []string{"C04"}, File: fAOF,
-		Old: "\t\t\t\ts.aofsz -= len(buf)\n\t\t\t\tif err := s.aof.Truncate(int64(s.aofsz)); err != nil {\n\t\t\t\t\treturn err\n\t\t\t\t}",
-		New: "\t\t\t\tif err := s.aof.Truncate(int64(s.aofsz)); err != nil {\n\t\t\t\t\treturn err\n\t\t\t\t}\n\t\t\t\ts.aofsz -= len(buf)",
-		Expect: "R4.size-accounting", Key: "truncate-at-boundary", Why: "the torn bytes stay in the file"})
+		Old:    "\t\t\t\ts.aofsz -= len(buf)\n\t\t\t\tif err := s.aof.Truncate(int64(s.aofsz)); err != nil {\n\t\t\t\t\treturn err\n\t\t\t\t}",
+		New:    "\t\t\t\tif err := s.aof.Truncate(int64(s.aofsz)); err != nil {\n\t\t\t\t\treturn err\n\t\t\t\t}\n\t\t\t\ts.aofsz -= len(buf)",
+		Expect: "R4.size-accounting", Key: "truncate-offset", Why: "the torn bytes stay in the file"})
 	mutant(&Mutant{Name: "loadaof-truncate-error-dropped", Props: []string{"C04"}, File: fAOF,
 		Old: "\t\t\t\tif err := s.aof.Truncate(int64(s.aofsz)); err != nil {\n\t\t\t\t\treturn err\n\t\t\t\t}", New: "\t\t\t\ts.aof.Truncate(int64(s.aofsz))",
 		Expect: "R4.size-accounting", Key: "truncate-error-returned", Why: "a failed repair goes unnoticed"})
@@ -302,7 +302,7 @@ func init() {
 		Expect: "R4.carry", Key: "remainder-carried", Why: "a command split across two reads is dropped"})
 	mutant(&Mutant{Name: "loadaof-count-after-parse", Props: []string{"C04"}, File: fAOF,
 		Old: "\t\ts.aofsz += n\n\t\tdata := packet[:n]", New: "\t\tdata := packet[:n]",
-		Expect: "R4.size-accounting", Key: "read-counted-before-parse", Why: "aofsz stays 0 after start-up"})
+		Expect: "R4.size-accounting", Key: "aofsz-at-return", Why: "aofsz stays 0 after start-up"})
 
 	// ---- R6 ----------------------------------------------------------------
 	mutant(&Mutant{Name: "follow-small-log-no-reset", Props: []string{"C06"}, File: "internal/server/checksum.go",
@@ -321,8 +321,8 @@ func init() {
 		Old: "\t\t\tif aofsz >= int(aofSize) {", New: "\t\t\tif aofsz >= int(pos) {",
 		Expect: "R6.caught-up-guard", Key: "setCaughtUp(true)", Why: "compares the position with itself instead of the leader's size"})
 	mutant(&Mutant{Name: "follow-handle-lock-late", Props: []string{"C06"}, File: fFollow,
-		Old: "\ts.mu.Lock()\n\tdefer s.mu.Unlock()\n\tif int(s.followc.Load()) != followc {\n\t\treturn s.aofsz, errNoLongerFollowing\n\t}\n\tmsg := &Message{Args: args}",
-		New: "\tif int(s.followc.Load()) != followc {\n\t\treturn 0, errNoLongerFollowing\n\t}\n\ts.mu.Lock()\n\tdefer s.mu.Unlock()\n\tmsg := &Message{Args: args}",
+		Old:    "\ts.mu.Lock()\n\tdefer s.mu.Unlock()\n\tif int(s.followc.Load()) != followc {\n\t\treturn s.aofsz, errNoLongerFollowing\n\t}\n\tmsg := &Message{Args: args}",
+		New:    "\tif int(s.followc.Load()) != followc {\n\t\treturn 0, errNoLongerFollowing\n\t}\n\ts.mu.Lock()\n\tdefer s.mu.Unlock()\n\tmsg := &Message{Args: args}",
 		Expect: "R6.apply-under-lock", Key: "lock-dominates", Why: "a command of a superseded leader can be applied after FOLLOW changed"})
 	mutant(&Mutant{Name: "reset-forgets-hooks", Props: []string{"C06"}, File: fServer,
 		Old: "\ts.hookExpires.Clear()\n\ts.hooks.Clear()\n\ts.hooksOut.Clear()\n\ts.hookTree.Clear()\n\ts.hookCross.Clear()\n}", New: "\ts.hookExpires.Clear()\n\ts.hooksOut.Clear()\n\ts.hookTree.Clear()\n\ts.hookCross.Clear()\n}",
@@ -330,8 +330,8 @@ func init() {
 
 	// ---- R5 ----------------------------------------------------------------
 	mutant(&Mutant{Name: "delhook-forgets-tree", Props: []string{"C05"}, File: fHooks,
-		Old: "\t\trect := hook.Fence.obj.Rect()\n\t\ts.hookTree.Delete(\n\t\t\t[2]float64{rect.Min.X, rect.Min.Y},\n\t\t\t[2]float64{rect.Max.X, rect.Max.Y},\n\t\t\thook)\n\t\tif hook.Fence.detect[\"cross\"] {",
-		New: "\t\trect := hook.Fence.obj.Rect()\n\t\tif hook.Fence.detect[\"cross\"] {",
+		Old:    "\t\trect := hook.Fence.obj.Rect()\n\t\ts.hookTree.Delete(\n\t\t\t[2]float64{rect.Min.X, rect.Min.Y},\n\t\t\t[2]float64{rect.Max.X, rect.Max.Y},\n\t\t\thook)\n\t\tif hook.Fence.detect[\"cross\"] {",
+		New:    "\t\trect := hook.Fence.obj.Rect()\n\t\tif hook.Fence.detect[\"cross\"] {",
 		Expect: "R5.registry-co-update", Key: "cmdDELHOOKop/delete/hookTree", Why: "a deleted hook stays in the spatial candidate index and keeps firing"})
 	mutant(&Mutant{Name: "sethook-forgets-hooksout", Props: []string{"C05"}, File: fHooks,
 		Old: "\tif hook.Fence.detect == nil || hook.Fence.detect[\"outside\"] {\n\t\ts.hooksOut.Set(hook)\n\t}\n", New: "",
@@ -351,16 +351,16 @@ func init() {
 
 	// ---- R10 ---------------------------------------------------------------
 	mutant(&Mutant{Name: "publish-unlocked-append", Props: []string{"C10"}, File: "internal/server/pubsub.go",
-		Old: "\t\tmsg.target.cond.L.Lock()\n\t\tmsg.target.msgs = append(msg.target.msgs, msg)\n\t\tmsg.target.cond.Broadcast()\n\t\tmsg.target.cond.L.Unlock()",
-		New: "\t\tmsg.target.msgs = append(msg.target.msgs, msg)\n\t\tmsg.target.cond.Broadcast()",
+		Old:    "\t\tmsg.target.cond.L.Lock()\n\t\tmsg.target.msgs = append(msg.target.msgs, msg)\n\t\tmsg.target.cond.Broadcast()\n\t\tmsg.target.cond.L.Unlock()",
+		New:    "\t\tmsg.target.msgs = append(msg.target.msgs, msg)\n\t\tmsg.target.cond.Broadcast()",
 		Expect: "R10.guarded-queues", Key: "subtarget.cond.L", Why: "two publishers append to one subscriber queue concurrently: a message is lost"})
 	mutant(&Mutant{Name: "livebuffer-unlocked-append", Props: []string{"C10"}, File: fLive,
-		Old: "\t\t\t\tlb.cond.L.Lock()\n\t\t\t\tif lb.key != \"\" && lb.key == item.key {\n\t\t\t\t\tlb.details = append(lb.details, item)\n\t\t\t\t\tlb.cond.Broadcast()\n\t\t\t\t}\n\t\t\t\tlb.cond.L.Unlock()",
-		New: "\t\t\t\tif lb.key != \"\" && lb.key == item.key {\n\t\t\t\t\tlb.details = append(lb.details, item)\n\t\t\t\t\tlb.cond.Broadcast()\n\t\t\t\t}",
+		Old:    "\t\t\t\tlb.cond.L.Lock()\n\t\t\t\tif lb.key != \"\" && lb.key == item.key {\n\t\t\t\t\tlb.details = append(lb.details, item)\n\t\t\t\t\tlb.cond.Broadcast()\n\t\t\t\t}\n\t\t\t\tlb.cond.L.Unlock()",
+		New:    "\t\t\t\tif lb.key != \"\" && lb.key == item.key {\n\t\t\t\t\tlb.details = append(lb.details, item)\n\t\t\t\t\tlb.cond.Broadcast()\n\t\t\t\t}",
 		Expect: "R10.guarded-queues", Key: "liveBuffer.cond.L", Why: "the live fence queue is appended while its consumer pops"})
 	mutant(&Mutant{Name: "lstack-unlocked", Props: []string{"C10"}, File: fAOF,
 		Old: "\t\ts.lcond.L.Lock()\n\t\tif len(s.lives) > 0 {", New: "\t\tif len(s.lives) > 0 {",
-		Edits: []Edit{{fAOF, "\t\t\ts.lcond.Broadcast()\n\t\t}\n\t\ts.lcond.L.Unlock()\n", "\t\t\ts.lcond.Broadcast()\n\t\t}\n"}},
+		Edits:  []Edit{{fAOF, "\t\t\ts.lcond.Broadcast()\n\t\t}\n\t\ts.lcond.L.Unlock()\n", "\t\t\ts.lcond.Broadcast()\n\t\t}\n"}},
 		Expect: "R10.guarded-queues", Key: "Server.lcond.L", Why: "the live stack is pushed without its lock"})
 	mutant(&Mutant{Name: "subscription-write-outside", Props: []string{"C10"}, File: "internal/server/pubsub.go",
 		Old: "\t\tcase RESP:\n\t\t\twrite([]byte(\"+OK\\r\\n\"))\n\t\t}\n\t}\n\twritePing", New: "\t\tcase RESP:\n\t\t\twriteLiveMessage(conn, []byte(\"+OK\\r\\n\"), false, connType, websocket)\n\t\t}\n\t}\n\twritePing",
@@ -380,8 +380,8 @@ func init() {
 
 	// ---- R16 ---------------------------------------------------------------
 	mutant(&Mutant{Name: "expire-arity-loosened", Props: []string{"C16"}, File: fCrud,
-		Old: "\targs := msg.Args\n\tif len(args) != 4 {\n\t\treturn retwerr(errInvalidNumberOfArguments)\n\t}\n\tkey, id, svalue := args[1], args[2], args[3]",
-		New: "\targs := msg.Args\n\tif len(args) < 3 {\n\t\treturn retwerr(errInvalidNumberOfArguments)\n\t}\n\tkey, id, svalue := args[1], args[2], args[3]",
+		Old:    "\targs := msg.Args\n\tif len(args) != 4 {\n\t\treturn retwerr(errInvalidNumberOfArguments)\n\t}\n\tkey, id, svalue := args[1], args[2], args[3]",
+		New:    "\targs := msg.Args\n\tif len(args) < 3 {\n\t\treturn retwerr(errInvalidNumberOfArguments)\n\t}\n\tkey, id, svalue := args[1], args[2], args[3]",
 		Expect: "R16.bounds", Key: "cmdEXPIRE→args[3]", Why: "EXPIRE key id (without seconds) indexes past the arguments"})
 	mutant(&Mutant{Name: "jset-no-default", Props: []string{"C16"}, File: fJSON,
 		Old: "\tswitch len(msg.Args) {\n\tdefault:\n\t\treturn NOMessage, d, errInvalidNumberOfArguments\n\tcase 5:", New: "\tswitch len(msg.Args) {\n\tcase 5:",
@@ -411,12 +411,12 @@ func init() {
 		Old: "\tdefer func() {\n\t\tif err != nil {\n\t\t\tfor _, whereeval := range t.whereevals {\n\t\t\t\twhereeval.Close()\n\t\t\t}\n\t\t}\n\t}()\n", New: "",
 		Expect: "R16.pool-pairing", Key: "parseSearchScanBaseTokens", Why: "reverse of the pool leak fix (later token errors)"})
 	mutant(&Mutant{Name: "gate-without-return", Props: []string{"C16", "C17"}, File: fServer,
-		Old: "\t\twrite = true\n\t\ts.mu.Lock()\n\t\tdefer s.mu.Unlock()\n\t\tif s.config.followHost() != \"\" {\n\t\t\treturn writeErr(\"not the leader\")\n\t\t}\n\t\tif s.config.readOnly() {\n\t\t\treturn writeErr(\"read only\")\n\t\t}",
-		New: "\t\twrite = true\n\t\ts.mu.Lock()\n\t\tdefer s.mu.Unlock()\n\t\tif s.config.followHost() != \"\" {\n\t\t\treturn writeErr(\"not the leader\")\n\t\t}\n\t\tif s.config.readOnly() {\n\t\t\twriteErr(\"read only\")\n\t\t}",
+		Old:    "\t\twrite = true\n\t\ts.mu.Lock()\n\t\tdefer s.mu.Unlock()\n\t\tif s.config.followHost() != \"\" {\n\t\t\treturn writeErr(\"not the leader\")\n\t\t}\n\t\tif s.config.readOnly() {\n\t\t\treturn writeErr(\"read only\")\n\t\t}",
+		New:    "\t\twrite = true\n\t\ts.mu.Lock()\n\t\tdefer s.mu.Unlock()\n\t\tif s.config.followHost() != \"\" {\n\t\t\treturn writeErr(\"not the leader\")\n\t\t}\n\t\tif s.config.readOnly() {\n\t\t\twriteErr(\"read only\")\n\t\t}",
 		Expect: "R16.one-reply", Key: "read only", Why: "the read-only gate answers and then executes the command: two replies"})
 	mutant(&Mutant{Name: "nonatomic-no-recover", Props: []string{"C16"}, File: fScripts,
-		Old: "\t\t\tdefer func() {\n\t\t\t\tif msg.Deadline.Hit() {\n\t\t\t\t\tv := recover()\n\t\t\t\t\tif v != nil {\n\t\t\t\t\t\tif s, ok := v.(string); !ok || s != \"deadline\" {\n\t\t\t\t\t\t\tpanic(v)\n\t\t\t\t\t\t}\n\t\t\t\t\t}\n\t\t\t\t\tres = NOMessage\n\t\t\t\t\terr = errTimeout\n\t\t\t\t}\n\t\t\t}()\n\t\t}\n\t\treturn s.commandInScript(msg)\n\t}()\n\tif err != nil {\n\t\treturn resp.NullValue(), err\n\t}\n\n\tif write {\n\t\tif err := s.writeAOF(msg.Args, &d); err != nil {\n\t\t\treturn resp.NullValue(), err\n\t\t}\n\t}\n\n\treturn res, nil\n}\n\n// Opens",
-		New: "\t\t}\n\t\treturn s.commandInScript(msg)\n\t}()\n\tif err != nil {\n\t\treturn resp.NullValue(), err\n\t}\n\n\tif write {\n\t\tif err := s.writeAOF(msg.Args, &d); err != nil {\n\t\t\treturn resp.NullValue(), err\n\t\t}\n\t}\n\n\treturn res, nil\n}\n\n// Opens",
+		Old:    "\t\t\tdefer func() {\n\t\t\t\tif msg.Deadline.Hit() {\n\t\t\t\t\tv := recover()\n\t\t\t\t\tif v != nil {\n\t\t\t\t\t\tif s, ok := v.(string); !ok || s != \"deadline\" {\n\t\t\t\t\t\t\tpanic(v)\n\t\t\t\t\t\t}\n\t\t\t\t\t}\n\t\t\t\t\tres = NOMessage\n\t\t\t\t\terr = errTimeout\n\t\t\t\t}\n\t\t\t}()\n\t\t}\n\t\treturn s.commandInScript(msg)\n\t}()\n\tif err != nil {\n\t\treturn resp.NullValue(), err\n\t}\n\n\tif write {\n\t\tif err := s.writeAOF(msg.Args, &d); err != nil {\n\t\t\treturn resp.NullValue(), err\n\t\t}\n\t}\n\n\treturn res, nil\n}\n\n// Opens",
+		New:    "\t\t}\n\t\treturn s.commandInScript(msg)\n\t}()\n\tif err != nil {\n\t\treturn resp.NullValue(), err\n\t}\n\n\tif write {\n\t\tif err := s.writeAOF(msg.Args, &d); err != nil {\n\t\t\treturn resp.NullValue(), err\n\t\t}\n\t}\n\n\treturn res, nil\n}\n\n// Opens",
 		Expect: "R16.deadline-recover", Key: "luaTile38NonAtomic", Why: "a TIMEOUT that fires inside EVALNA kills the process"})
 
 	// ---- R17 ---------------------------------------------------------------
@@ -441,7 +441,7 @@ func init() {
 
 	mutant(&Mutant{Name: "eval-put-before-removecontext", Props: []string{"C16"}, File: fScripts,
 		Old: "\t// registered first so that it runs last: everything deferred below still\n\t// uses the state and must be done before it goes back to the pool.\n\tdefer s.luapool.Put(luaState)\n", New: "",
-		Edits: []Edit{{fScripts, "\t\tluaDeadline = lua.LNumber(float64(dlTime.UnixNano()) / 1e9)\n\t}\n", "\t\tluaDeadline = lua.LNumber(float64(dlTime.UnixNano()) / 1e9)\n\t}\n\tdefer s.luapool.Put(luaState)\n"}},
+		Edits:  []Edit{{fScripts, "\t\tluaDeadline = lua.LNumber(float64(dlTime.UnixNano()) / 1e9)\n\t}\n", "\t\tluaDeadline = lua.LNumber(float64(dlTime.UnixNano()) / 1e9)\n\t}\n\tdefer s.luapool.Put(luaState)\n"}},
 		Expect: "R16.pool-pairing", Key: "put-runs-last", Why: "reverse of the defer-order fix"})
 
 	// ---- neutral variants --------------------------------------------------
@@ -449,17 +449,17 @@ func init() {
 		Old: "func (s *Server) luaTile38NonAtomic(msg *Message) (resp.Value, error) {\n\tvar write bool\n", New: "func (s *Server) luaTile38NonAtomic(msg *Message) (resp.Value, error) {\n\tvar write bool\n\t_ = \"neutral\"\n",
 		Why: "an inert statement"})
 	mutant(&Mutant{Name: "neutral-prewrite-helper", Props: []string{"C07", "C08"}, Neutral: true, File: fServer,
-		Old: "\t\t\t\t\tif s.aofdirty.Load() {\n\t\t\t\t\t\tfunc() {\n\t\t\t\t\t\t\t// prewrite\n\t\t\t\t\t\t\ts.mu.Lock()\n\t\t\t\t\t\t\tdefer s.mu.Unlock()\n\t\t\t\t\t\t\ts.flushAOF(false)\n\t\t\t\t\t\t\ts.aofdirty.Store(false)\n\t\t\t\t\t\t}()\n\t\t\t\t\t}",
-		New: "\t\t\t\t\ts.prewriteNeutral()",
+		Old:   "\t\t\t\t\tif s.aofdirty.Load() {\n\t\t\t\t\t\tfunc() {\n\t\t\t\t\t\t\t// prewrite\n\t\t\t\t\t\t\ts.mu.Lock()\n\t\t\t\t\t\t\tdefer s.mu.Unlock()\n\t\t\t\t\t\t\ts.flushAOF(false)\n\t\t\t\t\t\t\ts.aofdirty.Store(false)\n\t\t\t\t\t\t}()\n\t\t\t\t\t}",
+		New:   "\t\t\t\t\ts.prewriteNeutral()",
 		Edits: []Edit{{fServer, "func isReservedFieldName(field string) bool {", "func (s *Server) prewriteNeutral() {\n\tif !s.aofdirty.Load() {\n\t\treturn\n\t}\n\ts.mu.Lock()\n\tdefer s.mu.Unlock()\n\ts.flushAOF(false)\n\ts.aofdirty.Store(false)\n}\n\nfunc isReservedFieldName(field string) bool {"}},
-		Why: "the prewrite block extracted into a helper"})
+		Why:   "the prewrite block extracted into a helper"})
 	mutant(&Mutant{Name: "neutral-gate-operand-order", Props: []string{"C15"}, Neutral: true, File: fServer,
 		Old: "\t\twrite = true\n\t\ts.mu.Lock()\n\t\tdefer s.mu.Unlock()\n\t\tif s.config.followHost() != \"\" {", New: "\t\twrite = true\n\t\ts.mu.Lock()\n\t\tdefer s.mu.Unlock()\n\t\tif \"\" != s.config.followHost() {",
 		Why: "comparison operands swapped"})
 	mutant(&Mutant{Name: "neutral-handler-rename", Props: []string{"C03", "C07", "C15"}, Neutral: true, File: fServer,
 		Old: "\t\tres, err = s.cmdTTL(msg)\n\tcase \"shutdown\":", New: "\t\tres, err = s.cmdTTLrenamed(msg)\n\tcase \"shutdown\":",
 		Edits: []Edit{{fCrud, "func (s *Server) cmdTTL(msg *Message) (resp.Value, error) {", "func (s *Server) cmdTTL(msg *Message) (resp.Value, error) { return s.cmdTTLrenamed(msg) }\n\nfunc (s *Server) cmdTTLrenamed(msg *Message) (resp.Value, error) {"}},
-		Why: "a handler renamed together with its dispatch entry (old name kept as a wrapper for the script table)"})
+		Why:   "a handler renamed together with its dispatch entry (old name kept as a wrapper for the script table)"})
 }
 
 func init() {
@@ -497,11 +497,96 @@ func init() {
 		New:    "\t\t\tupdated = true\n\t\t}\n\t\tif erron404 && old.Expires() != 0 {\n\t\t\treturn retwerr(errIDNotFound)\n\t\t}",
 		Expect: "R1.err-before-effect", Key: "cmdDEL→col.Delete", Why: "error after an effective delete"})
 	mutant(&Mutant{Name: "neutral-del-cleanup-after-flag", Props: []string{"C01", "C19", "C03"}, File: fCrud, Neutral: true,
-		Old:    "\t\tif old != nil {\n\t\t\tif col.Count() == 0 {\n\t\t\t\ts.cols.Delete(key)\n\t\t\t}\n\t\t\tupdated = true",
-		New:    "\t\tif old != nil {\n\t\t\tupdated = true\n\t\t\tif col.Count() == 0 {\n\t\t\t\ts.cols.Delete(key)\n\t\t\t}",
-		Why:    "order of flag and cleanup is irrelevant"})
+		Old: "\t\tif old != nil {\n\t\t\tif col.Count() == 0 {\n\t\t\t\ts.cols.Delete(key)\n\t\t\t}\n\t\t\tupdated = true",
+		New: "\t\tif old != nil {\n\t\t\tupdated = true\n\t\t\tif col.Count() == 0 {\n\t\t\t\ts.cols.Delete(key)\n\t\t\t}",
+		Why: "order of flag and cleanup is irrelevant"})
 	mutant(&Mutant{Name: "neutral-set-xx-split", Props: []string{"C01"}, File: fCrud, Neutral: true,
-		Old:    "\tif xx || nx {\n\t\tif col.Get(id) == nil {\n\t\t\tif xx {\n\t\t\t\treturn nada()\n\t\t\t}\n\t\t} else {\n\t\t\tif nx {\n\t\t\t\treturn nada()\n\t\t\t}\n\t\t}\n\t}",
-		New:    "\tif xx && col.Get(id) == nil {\n\t\treturn nada()\n\t}\n\tif nx && col.Get(id) != nil {\n\t\treturn nada()\n\t}",
-		Why:    "same NX/XX decision written as two guards"})
+		Old: "\tif xx || nx {\n\t\tif col.Get(id) == nil {\n\t\t\tif xx {\n\t\t\t\treturn nada()\n\t\t\t}\n\t\t} else {\n\t\t\tif nx {\n\t\t\t\treturn nada()\n\t\t\t}\n\t\t}\n\t}",
+		New: "\tif xx && col.Get(id) == nil {\n\t\treturn nada()\n\t}\n\tif nx && col.Get(id) != nil {\n\t\treturn nada()\n\t}",
+		Why: "same NX/XX decision written as two guards"})
+}
+
+func init() {
+	// ---- rules added after the second batch of seeded changes ---------------
+	mutant(&Mutant{Name: "within-disjunctive-fastpath", Props: []string{"C02"}, File: fColl,
+		Old: "\t\tif o.Geo().Within(obj) {", New: "\t\tif o.Rect().Min == o.Rect().Max || o.Geo().Within(obj) {",
+		Expect: "R2.exact-filter", Key: "Within/branch2", Why: "the exact predicate is only one disjunct of the guard"})
+	mutant(&Mutant{Name: "liveaof-two-sections", Props: []string{"C06", "C09"}, File: fAOF,
+		Old:    "\ts.mu.Lock()\n\tf, err := os.Open(s.aof.Name())\n\tif err == nil {\n\t\ts.aofconnM[conn] = f\n\t}\n\ts.mu.Unlock()\n\tif err != nil {\n\t\treturn err\n\t}\n",
+		New:    "\ts.mu.RLock()\n\tf, err := os.Open(s.aof.Name())\n\ts.mu.RUnlock()\n\tif err != nil {\n\t\treturn err\n\t}\n\ts.mu.Lock()\n\ts.aofconnM[conn] = f\n\ts.mu.Unlock()\n",
+		Expect: "R6.stream-registered", Key: "liveAOF→open-live-log/same-section", Why: "reverse of fix 8231116"})
+	mutant(&Mutant{Name: "liveaof-register-after-seek", Props: []string{"C06", "C09"}, File: fAOF,
+		Old:    "\tif err == nil {\n\t\ts.aofconnM[conn] = f\n\t}\n\ts.mu.Unlock()\n\tif err != nil {\n\t\treturn err\n\t}\n",
+		New:    "\ts.mu.Unlock()\n\tif err != nil {\n\t\treturn err\n\t}\n\tif _, err := f.Seek(pos, 0); err != nil {\n\t\treturn err\n\t}\n\ts.mu.Lock()\n\ts.aofconnM[conn] = f\n\ts.mu.Unlock()\n",
+		Expect: "R6.stream-registered", Key: "liveAOF→open-live-log/registered-before-read", Why: "handle used before it is registered"})
+	mutant(&Mutant{Name: "liveaof-register-shared", Props: []string{"C06", "C07"}, File: fAOF,
+		Old:    "\ts.mu.Lock()\n\tf, err := os.Open(s.aof.Name())\n\tif err == nil {\n\t\ts.aofconnM[conn] = f\n\t}\n\ts.mu.Unlock()\n",
+		New:    "\ts.mu.RLock()\n\tf, err := os.Open(s.aof.Name())\n\tif err == nil {\n\t\ts.aofconnM[conn] = f\n\t}\n\ts.mu.RUnlock()\n",
+		Expect: "R6.stream-registered", Key: "liveAOF→open-live-log/registered-exclusively", Why: "map store under the shared lock"})
+	mutant(&Mutant{Name: "shrink-no-kick", Props: []string{"C06", "C09"}, File: fShrink,
+		Old:    "\t\t\tfor conn, f := range s.aofconnM {\n\t\t\t\tconn.Close()\n\t\t\t\tf.Close()\n\t\t\t}\n",
+		New:    "",
+		Expect: "R6.stream-registered", Key: "shrink-kicks-followers", Why: "followers keep the replaced log open"})
+	mutant(&Mutant{Name: "shrink-kick-conn-only", Props: []string{"C06", "C09"}, File: fShrink,
+		Old:    "\t\t\tfor conn, f := range s.aofconnM {\n\t\t\t\tconn.Close()\n\t\t\t\tf.Close()\n\t\t\t}\n",
+		New:    "\t\t\tfor conn := range s.aofconnM {\n\t\t\t\tconn.Close()\n\t\t\t}\n",
+		Expect: "R6.stream-registered", Key: "shrink-kicks-followers", Why: "the files stay open (Windows rename fails; reader may keep streaming)"})
+	mutant(&Mutant{Name: "shutdown-unlocked-connM", Props: []string{"C07"}, File: fServer,
+		Old:    "\t\ts.mu.RLock()\n\t\tfor conn, f := range s.aofconnM {\n\t\t\tconn.Close()\n\t\t\tf.Close()\n\t\t}\n\t\ts.mu.RUnlock()\n",
+		New:    "\t\tfor conn, f := range s.aofconnM {\n\t\t\tconn.Close()\n\t\t\tf.Close()\n\t\t}\n",
+		Expect: "R7.lock-read", Key: "Serve$4→Server.aofconnM", Why: "reverse of fix 7ebfd76"})
+	mutant(&Mutant{Name: "proc-bounded-scan", Props: []string{"C10"}, File: fHooks,
+		Old:    "\t\t\t\t\t}\n\t\t\t\t}\n\t\t\t\treturn true\n\t\t\t},\n\t\t)",
+		New:    "\t\t\t\t\t}\n\t\t\t\t}\n\t\t\t\treturn len(keys) < 256\n\t\t\t},\n\t\t)",
+		Expect: "R10.drain-complete", Key: "scan1-exhaustive", Why: "the seeded change C10"})
+	mutant(&Mutant{Name: "proc-send-loop-tail", Props: []string{"C10"}, File: fHooks,
+		Old:    "\tfor i, key := range keys {\n\t\tval := vals[i]\n\t\tidx := stringToUint64(key[len(hookLogPrefix):])",
+		New:    "\tfor i, key := range keys[:len(keys)/2+1] {\n\t\tval := vals[i]\n\t\tidx := stringToUint64(key[len(hookLogPrefix):])",
+		Expect: "R10.drain-complete", Key: "send-loop-whole-slice", Why: "entries deleted from the queue and never sent"})
+	mutant(&Mutant{Name: "proc-send-loop-break", Props: []string{"C10"}, File: fHooks,
+		Old:    "\t\tidx := stringToUint64(key[len(hookLogPrefix):])\n\t\tvar sent bool",
+		New:    "\t\tidx := stringToUint64(key[len(hookLogPrefix):])\n\t\tif time.Since(start) > time.Second {\n\t\t\tbreak\n\t\t}\n\t\tvar sent bool",
+		Expect: "R10.drain-complete", Key: "send-loop-no-break", Why: "time-boxed pass drops the rest of the batch"})
+	mutant(&Mutant{Name: "manager-wait-ignores-signal", Props: []string{"C10"}, File: fHooks,
+		Old:    "\t\tif sig != h.sig {\n\t\t\t// there was another incoming signal\n\t\t\tcontinue\n\t\t}\n",
+		New:    "\t\t_ = sig\n",
+		Expect: "R10.drain-complete", Key: "manager-wait-no-missed-signal", Why: "a signal during proc() is lost"})
+	mutant(&Mutant{Name: "neutral-proc-bounded-with-flag", Props: []string{"C10"}, File: fHooks, Neutral: true,
+		Old: "\t\t\t\t\t}\n\t\t\t\t}\n\t\t\t\treturn true\n\t\t\t},\n\t\t)",
+		New: "\t\t\t\t\t}\n\t\t\t\t}\n\t\t\t\tif len(keys) >= 1<<20 {\n\t\t\t\t\tmore = true\n\t\t\t\t\treturn false\n\t\t\t\t}\n\t\t\t\treturn true\n\t\t\t},\n\t\t)",
+		Edits: []Edit{
+			{fHooks, "\tvar ttls []time.Duration\n\tstart := time.Now()\n\terr := h.db.Update(", "\tvar ttls []time.Duration\n\tvar more bool\n\tstart := time.Now()\n\terr := h.db.Update("},
+			{fHooks, "\t\t\treturn false\n\t\t}\n\t}\n\treturn true\n}", "\t\t\treturn false\n\t\t}\n\t}\n\tif more {\n\t\treturn false\n\t}\n\treturn true\n}"},
+		},
+		Why: "a bounded batch that reports 'not drained' when it stopped early"})
+}
+
+func init() {
+	// ---- R4.size-accounting on the affine-equality analysis -------------------
+	tailEdits := func(nulFix, init string) []Edit {
+		return []Edit{
+			{fAOF, "\tvar packet [0xFFFF]byte\n\tfor {\n\t\tn, err := s.aof.Read(packet[:])", "\tvar packet [0xFFFF]byte\n\t" + init + "\n\tfor {\n\t\tn, err := s.aof.Read(packet[:])"},
+			{fAOF, "\t\t\t\ts.aofsz -= len(buf)\n", "\t\t\t\ts.aofsz = tail\n"},
+			{fAOF, "\t\t\t\tdata = data[1:]\n\t\t\t\tcontinue\n", "\t\t\t\tdata = data[1:]\n" + nulFix + "\t\t\t\tcontinue\n"},
+			{fAOF, "\t\t\tcomplete, args, _, data, err = redcon.ReadNextCommand(data, args[:0])\n\t\t\tif err != nil {\n\t\t\t\treturn err\n\t\t\t}\n\t\t\tif !complete {\n\t\t\t\tbreak\n\t\t\t}\n",
+				"\t\t\tsize := len(data)\n\t\t\tcomplete, args, _, data, err = redcon.ReadNextCommand(data, args[:0])\n\t\t\tif err != nil {\n\t\t\t\treturn err\n\t\t\t}\n\t\t\tif !complete {\n\t\t\t\tbreak\n\t\t\t}\n\t\t\ttail += size - len(data)\n"},
+		}
+	}
+	mutant(&Mutant{Name: "loadaof-tail-ignores-nuls", Props: []string{"C04"}, File: fAOF, Edits: tailEdits("", "tail := s.aofsz"),
+		Expect: "R4.size-accounting", Key: "truncate-offset", Why: "the seeded change C04: a running tail offset that the NUL-skip branch does not advance"})
+	mutant(&Mutant{Name: "neutral-loadaof-tail-offset", Props: []string{"C04"}, File: fAOF, Neutral: true, Edits: tailEdits("\t\t\t\ttail++\n", "tail := s.aofsz"),
+		Why: "the same refactoring done right: every consumed byte advances the tail offset"})
+	mutant(&Mutant{Name: "loadaof-count-after-parse-skip", Props: []string{"C04"}, File: fAOF,
+		Old: "\t\ts.aofsz += n\n\t\tdata := packet[:n]", New: "\t\tif n == len(packet) {\n\t\t\ts.aofsz += n\n\t\t}\n\t\tdata := packet[:n]",
+		Expect: "R4.size-accounting", Key: "aofsz-at-return", Why: "short reads are not counted"})
+	mutant(&Mutant{Name: "loadaof-truncate-keeps-one", Props: []string{"C04"}, File: fAOF,
+		Old: "\t\t\t\ts.aofsz -= len(buf)\n", New: "\t\t\t\ts.aofsz -= len(buf) - 1\n",
+		Expect: "R4.size-accounting", Key: "truncate-offset", Why: "off by one at the cut"})
+	mutant(&Mutant{Name: "loadaof-seek-old-size", Props: []string{"C04"}, File: fAOF,
+		Old: "\t\t\t\tif _, err := s.aof.Seek(int64(s.aofsz), 0); err != nil {", New: "\t\t\t\tif _, err := s.aof.Seek(int64(s.aofsz+len(buf)), 0); err != nil {",
+		Expect: "R4.size-accounting", Key: "seek-offset", Why: "write offset left beyond the cut"})
+	mutant(&Mutant{Name: "neutral-loadaof-cut-variable", Props: []string{"C04"}, File: fAOF, Neutral: true,
+		Old:   "\t\t\t\ts.aofsz -= len(buf)\n\t\t\t\tif err := s.aof.Truncate(int64(s.aofsz)); err != nil {\n\t\t\t\t\treturn err\n\t\t\t\t}\n\t\t\t\tif _, err := s.aof.Seek(int64(s.aofsz), 0); err != nil {",
+		New:   "\t\t\t\tcut := int64(s.aofsz - len(buf))\n\t\t\t\tif err := s.aof.Truncate(cut); err != nil {\n\t\t\t\t\treturn err\n\t\t\t\t}\n\t\t\t\ts.aofsz = int(cut)\n\t\t\t\tif _, err := s.aof.Seek(cut, 0); err != nil {",
+		Why:   "the cut offset held in a local"})
 }
